@@ -7,6 +7,7 @@
             second table: numpy's int -> float64 conversion for the integers of the case.
    requests
      (rt sel fmt roi v)       -> ((w cp...) RD (w2 cp...)|(w2none) (writable b) (normal b))   sel 0 = .rs, 1 = .r
+     (reread sel fmt roi v)   -> RD      the SECOND reading of the written text, the first result updated in place in between
      (read sel fmt roi (cp...)) -> RD                    RD = (ok v) | (err) | (nofuel)
      (asarray fmt roi v)      -> v
      (rfile fmt roi (cp...))  -> (ok v...) | (err) | (nofuel)     repeated .r on a channel holding the text
@@ -126,6 +127,13 @@ Definition dispatch (x : sx) : sx :=
                 match rd with Ok v' => SL (sx_w "w2" :: map SZ (write E C v')) | _ => SL [sx_w "w2none"] end;
                 SL [sx_w "writable"; sx_bool (writable E v)];
                 SL [sx_w "normal"; sx_bool (zs_eqb (write E C (asarray E v)) text)]]
+        | None => sx_err "value"
+        end
+      else if is_tag "reread" t then
+        match val_of_sx 1000 a with
+        | Some v =>
+            sx_rd (read_twice E C (if sel =? 0 then gen_rs_fresh_parse else gen_r_fresh_parse)
+                              (if sel =? 0 then gen_rs_ignore_newline else gen_r_ignore_newline) (write E C v))
         | None => sx_err "value"
         end
       else if is_tag "read" t then
